@@ -447,6 +447,16 @@ theorem refs_fields (c : Cell) (j : Nat) (hj : j ∈ c.refs) : addr j ∈ Cello.
     obtain ⟨o, ho, hw⟩ := entry_fields side k j'
     rw [toObj, fields_cont _ _ (by simp)]
     exact fieldsL_mem _ o (List.mem_flatMap.mpr ⟨(k, j'), hm, ho⟩) _ hw
+  | thread kvs =>
+    -- Thread_Mark presents the table of ANY Thread object: `mark(t->tls, gc, f)` → Table_Mark → the embedded Ref of every entry
+    simp only [Cell.refs, List.mem_map] at hj
+    obtain ⟨e, hm, hj2⟩ := hj
+    have ht := current_tables
+    have h1 := ht.1 "Thread" (by simp)
+    have h2 := ht.1 "Table" (by simp)
+    simp only [toObj, Cello.Heap.fields, Cello.Heap.viaMark, h1.1, h1.2, h2.1, if_true, Bool.false_eq_true, if_false]
+    refine fieldsL_mem _ (.raw "Ref" [addr j]) ?_ (addr j) (by rw [fields_plain _ _ (by simp)]; simp)
+    exact List.mem_flatMap.mpr ⟨e, hm, by simp [hj2]⟩
 
 theorem toHeap_lookup (s : KSt) (i : Nat) :
     (toHeap s).lookup (addr i) = (s.heap.lookup i).map (fun c => ⟨toObj c, false⟩) := by
